@@ -146,7 +146,45 @@ def check(W, ctx: Ctx):
                                                for i, c in enumerate(W["components"])], "n": W["n"]})
 
 
+def _comp(name, stage=0, refs=(), **kw):
+    c = {"name": name, "stage": stage, "refs": [dict({"abs": False, "method": "ref", "path": None}, **r) for r in refs],
+         "replicate": None, "aggregate": False, "repeat": None, "shutdownOn": [], "restartHookOn": None,
+         "maxRestarts": None, "lits": []}
+    c.update(kw)
+    return c
+
+
+def boundary_catalogue():
+    """Deterministic family, run on every run: a replicated producer X next to a producer whose name ends/starts with
+    X behind every character that may separate name parts, both consumed by one replica and by one aggregator, in
+    either spelling and with / without a path - the text of one reference must never be rewritten inside the other."""
+    out = []
+    for other in ("A-X", "A_X", "A.X", "AX", "X-A", "X.A", "X_A", "XA", "0X"):
+        for path in (None, "out.txt"):
+            for abs_ in (False, True):
+                for order in ((0, 1), (1, 0)):
+                    comps = [_comp("X", replicate="lit"), _comp(other)]
+                    refs = [{"p": p, "abs": abs_, "path": path} for p in order]
+                    comps.append(_comp("Use", refs=refs))                       # replicated consumer (one per replica)
+                    comps.append(_comp("Agg", stage=1, refs=[dict(r, abs=True) for r in refs], aggregate=True))
+                    W = {"n": 2, "components": comps}
+                    if wfgen.unique_after_expansion(W) and wfgen.name_ok(other):
+                        out.append(W)
+    return out
+
+
 def shard(ctx: Ctx):
+    for idx, W in enumerate(boundary_catalogue()):
+        if idx % ctx.nshards != ctx.shard or ctx.stop:
+            continue
+        ctx.rec.evaluations += 1
+        try:
+            check(W, ctx)
+        except Violation as v:
+            v.case, v.sub = W, "expand"
+            ctx.rec.violations.append(v.to_dict())
+            ctx.stop = True
+            return
     explore(ctx, "expand", cases(), check, ctx.n(4000, 200000), batch=500)
 
 
